@@ -10,6 +10,7 @@ func Run(c *fw.Ctx) {
 	c.Cases("copy.iterator", c.N(18720, 561600), iteratorCloneCase)
 	c.Cases("copy.avl", c.N(2400, 72000), avlCopyCase)
 	c.Cases("copy.gradient", c.N(320, 9600), gradientCopyCase)
+	c.Cases("copy.sparse-const", c.N(2240, 67200), sparseConstCopyCase)
 	c.Cases("input.op", c.N(30960, 928800), opsInputCase)
 	c.Cases("input.algorithm", c.N(29696, 890880), algInputCase)
 	c.Cases("dist", c.N(16128, 483840), distCase)
